@@ -160,6 +160,32 @@ func (s *sched) runG(g *goroutine, body func()) {
 
 // pickNext removes and returns the next runnable goroutine.
 func (s *sched) pickNext() *goroutine {
+	// with budget left, which runnable goroutine runs next is explored too
+	if s.switchBudget > 0 {
+		n := 0
+		for _, g := range s.runq {
+			if !g.idleWait {
+				n++
+			}
+		}
+		if n > 1 {
+			k := s.i.p.choose(n, "sched@next")
+			if k > 0 {
+				s.switchBudget--
+				c := 0
+				for j, g := range s.runq {
+					if g.idleWait {
+						continue
+					}
+					if c == k {
+						s.runq = append(s.runq[:j:j], s.runq[j+1:]...)
+						return g
+					}
+					c++
+				}
+			}
+		}
+	}
 	for k, g := range s.runq {
 		if g.idleWait {
 			continue
